@@ -494,6 +494,22 @@ def salt_length_bad_char(m, rng):
             out.append(head + body[:pos] + rng.choice("-=+,_@#%&~") + body[pos + 1:])
     return out
 
+
+def noncanonical_salt_lengths(m, rng):
+    """yescrypt-family salt fields of EVERY length up to the maximum (and two beyond) made of random alphabet characters:
+    most of them leave non-zero left-over bits in the last character or have an impossible length -- whether each is to be
+    accepted is Settings.tla's decision (ParseYescrypt); a decoder that stops looking once its buffer is full accepts them"""
+    head = {"yescrypt": "$y$j65$", "gost_yescrypt": "$gy$j65$"}.get(m)
+    if head is None:
+        return []
+    out = []
+    for L in range(1, 89):
+        out.append(head + salt(rng, L))
+        out.append(head + salt(rng, L - 1) + rng.choice("zZyx9"))       # high bits of the last character set
+        if L in (43, 86):
+            out += [head + salt(rng, L - 1) + c for c in "./01z"]
+    return out
+
 def late_bad_char_settings(m, rng):
     """long settings (around and beyond the 384-byte output size) that are clean except for ONE forbidden byte far from the
     start -- at 382, 383, 384, 385, in the middle of the tail, at the very end: the generic character check covers the
